@@ -1255,6 +1255,12 @@ func (fr *frame) builtin(v ssa.Value, b *ssa.Builtin, c *ssa.CallCommon, st *Sta
 	case "append":
 		fr.atCallClauses("append", st, g, []string{arg(0), arg(1)}, []types.Type{c.Args[0].Type(), c.Args[1].Type()}, c.Pos())
 		fr.appendBuiltin(v, c, st, g)
+		// `bind x = append#n`: names the result of (and records the execution of) the function's n-th append
+		if sig, ok := c.Value.Type().(*types.Signature); ok && v != nil && (fr == fr.rootFr) {
+			if n := fr.sourceOrdinal("append", c.Pos()); n > 0 {
+				fr.rootFr.recordBind("append", n, []string{fr.vals[v]}, sig, []string{arg(0), arg(1)}, []types.Type{c.Args[0].Type(), c.Args[1].Type()}, g)
+			}
+		}
 	case "copy":
 		// copy(dst, src): havoc dst elements
 		dt := c.Args[0].Type().Underlying().(*types.Slice)
